@@ -167,7 +167,7 @@ pub fn run(ctx: &mut Ctx) {
             // the response to the first pulse had died away within one period, yet the periodic
             // output never repeats: the pulses are not rate/20 samples apart (or the filter
             // wanders) — nothing a stationary input can do
-            if st.first_decayed && !st.growing() {
+            if st.first_decayed && !st.growing() && st.never_repeats() {
                 ctx.violation("response-does-not-settle", descr().set("frames", st.frames_used));
                 return;
             }
